@@ -44,8 +44,11 @@ theorem G_accept (s : FState) (w : World) (h : G s w) : G s (accept w (w.naccept
 
 theorem G_userIO (s : FState) (w : World) (u : Nat) (h : G s w) (hno : (userIO w u).overflow = false) :
     G s (userIO w u) := by
-  have hroom := (userIO_ovf w u hno).2
+  have hnh : heldBack w u = false := (userIO_ovf w u hno).2.2
+  have hroom := (userIO_ovf w u hno).2.1
   unfold userIO
+  simp only [hnh, Bool.false_eq_true, if_false]
+  unfold userIO0
   dsimp only
   split
   · rename_i hne
@@ -76,8 +79,12 @@ theorem G_userIO (s : FState) (w : World) (u : Nat) (h : G s w) (hno : (userIO w
 theorem userIO_facts (w : World) (u : Nat) :
     ((userIO w u).net.get u).rx = [] ∨ (w.net.get u).rx ≠ [] → True := fun _ => trivial
 
-theorem userIO_rx_self (w : World) (u : Nat) : ((userIO w u).net.get u).rx = [] := by
+theorem userIO_rx_self (w : World) (u : Nat) (hno : (userIO w u).overflow = false) :
+    ((userIO w u).net.get u).rx = [] := by
+  have hnh : heldBack w u = false := (userIO_ovf w u hno).2.2
   unfold userIO
+  simp only [hnh, Bool.false_eq_true, if_false]
+  unfold userIO0
   dsimp only
   split
   · simp
@@ -87,6 +94,9 @@ theorem userIO_rx_self (w : World) (u : Nat) : ((userIO w u).net.get u).rx = [] 
 
 theorem userIO_rx_keep (w : World) (u x : Nat) (h : (w.net.get x).rx = []) : ((userIO w u).net.get x).rx = [] := by
   unfold userIO
+  split
+  · exact h
+  unfold userIO0
   dsimp only
   split
   · simp only [get_upd]; split
@@ -96,6 +106,9 @@ theorem userIO_rx_keep (w : World) (u x : Nat) (h : (w.net.get x).rx = []) : ((u
 
 theorem userIO_interactive (w : World) (u x : Nat) (h : (userIO w u).interactive x = true) : w.interactive x = true := by
   unfold userIO at h
+  split at h
+  · exact h
+  unfold userIO0 at h
   dsimp only at h
   split at h
   · exact h
@@ -114,7 +127,7 @@ theorem fold_userIO (L : List Nat) (w : World) (s : FState) (h : G s w) (hno : (
     refine ⟨i1, ?_, ?_, ?_⟩
     · intro x hx
       rcases List.mem_cons.mp hx with hx | hx
-      · subst hx; exact i3 x (userIO_rx_self w x)
+      · subst hx; exact i3 x (userIO_rx_self w x (fold_userIO_ovf r _ hno))
       · exact i2 x hx
     · intro x hx; exact i3 x (userIO_rx_keep w u x hx)
     · intro x hx; exact userIO_interactive w u x (i4 x hx)
